@@ -35,6 +35,7 @@ func TestC20Recording(t *testing.T) {
 	}
 	if run.Shard == 0 {
 		goexitHandlers(run)
+		abandonedSequentialWait(run)
 	}
 	n := run.Scale(2500, 120000)
 	pf := profiles()
